@@ -198,8 +198,65 @@ def _splice(caller, bi, callee):
     nbody = dict(cb)
     nbody["locals"] = new_locals
     nbody["blocks"] = blocks
+    corr = _correlation(blocks, bo, len(fb_["blocks"]), lo, call, cont)
+    if corr:
+        nbody["corr"] = list(cb.get("corr", [])) + [corr]
     out["body"] = nbody
     return out
+
+
+def _correlation(blocks, bo, n_callee, lo, call, cont):
+    """A spliced helper that returns Result / Option: each of its return sites builds one known
+    variant, and the caller tests exactly that value (`?` or a match on it) right after the
+    call.  Recorded so that path queries do not mix the Ok return with the Err arm (cfg.py)."""
+    assign = {}
+    for k in range(n_callee):
+        blk = blocks[bo + k]
+        v = None
+        for st in blk["stmts"]:
+            if st["k"] == "assign" and st["place"] == {"l": lo, "p": []}:
+                rv = st["rv"]
+                v = rv.get("vname") if rv["k"] == "aggregate" and rv.get("path") in ("std::result::Result", "std::option::Option") else "?"
+        t = blk["term"]
+        if t["k"] == "call" and t.get("dest") == {"l": lo, "p": []}:
+            v = "Err" if "FromResidual" in (t.get("resolved") or t.get("callee") or "") else "?"
+        if v is not None:
+            assign[bo + k] = v
+    if not assign or "?" in assign.values() or len(set(assign.values())) < 2:
+        return None
+    if call["dest"]["p"]:
+        return None
+    tested = call["dest"]["l"]
+    b = cont
+    via_branch = False
+    for _ in range(5):
+        blk = blocks[b]
+        t = blk["term"]
+        dl = None
+        for st in blk["stmts"]:
+            if st["k"] == "assign" and st["rv"]["k"] == "discr" and st["rv"]["place"] == {"l": tested, "p": []} and not st["place"]["p"]:
+                dl = st["place"]["l"]
+        if dl is not None and t["k"] == "switch" and t["discr"].get("place") == {"l": dl, "p": []}:
+            tg = {int(a): bb for a, bb in t["targets"]}
+            if via_branch or any(v in ("Ok", "Err") for v in assign.values()):
+                succ = {"Ok": tg.get(0, t["otherwise"]), "Err": tg.get(1, t["otherwise"])}
+            else:
+                succ = {"None": tg.get(0, t["otherwise"]), "Some": tg.get(1, t["otherwise"])}
+            return {"assign": assign, "switch": b, "succ": succ}
+        if t["k"] == "call" and "Try>::branch" in (t.get("resolved") or "") and len(t["args"]) == 1 and t["args"][0].get("place") == {"l": tested, "p": []} and not t["dest"]["p"]:
+            tested = t["dest"]["l"]
+            via_branch = True
+            b = t["target"]
+            continue
+        if t["k"] == "goto":
+            # a plain move of the tested value keeps it
+            for st in blk["stmts"]:
+                if st["k"] == "assign" and st["rv"]["k"] == "use" and st["rv"]["op"].get("place") == {"l": tested, "p": []} and not st["place"]["p"]:
+                    tested = st["place"]["l"]
+            b = t["target"]
+            continue
+        return None
+    return None
 
 
 def signature_table(d):
@@ -328,6 +385,7 @@ class FactBase:
         self.consts = {c["path"]: c for c in self.d["consts"]}
         self.impls = self.d["impls"]
         self.spliced = []
+        self.fresh_paths = set()
         if not os.environ.get("WOWSRP_NO_SPLICE"):
             self.splice_fresh_helpers()
 
@@ -369,6 +427,7 @@ class FactBase:
             return True
 
         fresh = {p for p, b in self.bodies.items() if is_fresh(b)}
+        self.fresh_paths = set(fresh)
         done = []
         for rnd in range(3):
             changed = False
